@@ -189,6 +189,19 @@ def rule_d(ctx, cr):
               "subscript or a user function of an INPUT target (`INPUT B(7)` with DIM B(5); "
               "`INPUT B(FNA(0))` where FNA fails) asks for the reply again forever, or unwinds "
               "to the function's marker and ends in INTERNAL ERROR")
+    # the marker that ends the unwind is the NEAREST Return (the one do_input pushed last):
+    # entries are taken off the top one by one; no positional search of the stack
+    pops = [c for c in ex.calls_to("mach::stack::Stack<T>::pop")
+            if any(c.bb in set(sc) for sc in ex.sccs())]
+    posn = [c.name.rsplit("::", 1)[1] for g in [ex] + list(cr.closures_of(ex.path)) for c in g.calls()
+            if re.search(r"Stack<T>::(drain|get|get_mut)$|Iterator::(position|find|rposition)$",
+                         c.name) and "stack" in (g.describe(c.args[0]) if c.args else "")
+            or re.search(r"Stack<T>::(drain|get)$", c.name)]
+    ctx.check(bool(pops) and not posn, "C17.d", "execute/unwind-from-top", ex.span,
+              "the redo unwind pops entries until it meets a Return marker",
+              "the redo unwind locates the Return marker by position (%s) instead of popping from "
+              "the top: inside a GOSUB the first Return from the bottom is the subroutine's "
+              "return address, so the retry resumes there and ends in INTERNAL ERROR" % posn)
     redo = [b for b, i, s in ex.aggregates("lang::error::ErrorCode", "RedoFromStart")]
     others = [p for p, f in cr.fns.items() if p != ex.path
               and list(f.aggregates("lang::error::ErrorCode", "RedoFromStart"))]
